@@ -174,6 +174,9 @@ func verifyFunc(prog *Prog, sp *FuncSpec) (res *FuncResult) {
 		t := fv.evalWrapper(sp.PkgPath, c.Wrapper, vals, st, nil)
 		st.assume(t)
 	}
+	for _, ln := range sp.UseLemmas {
+		fv.assumeLemma(st, ln)
+	}
 	fv.entry = st.clone()
 	fv.cover(st, "pre", boolT(true), "precondition is satisfiable")
 	if sp.Untrusted {
@@ -251,6 +254,51 @@ func verifyLemma(prog *Prog, sp *FuncSpec) (res *FuncResult) {
 	}
 	fv.finish(res)
 	return
+}
+
+// assumeLemma (use_lemma): the lemma `name` of the verified function's package, which is proved as
+// its own obligation whenever the property is checked, is assumed for all values of its (integer
+// or boolean) parameters: forall params :: typed(params) && requires ==> ensures.
+func (fv *FuncVerifier) assumeLemma(st *State, name string) {
+	lsp := fv.prog.specs[fv.spec.PkgPath+".lemma."+name]
+	if lsp == nil || lsp.Kind != SKLemma || len(lsp.Ensures) == 0 {
+		reject("use_lemma %s: no such lemma in %s", name, fv.spec.PkgPath)
+	}
+	wfd := fv.prog.decls[lsp.PkgPath+"."+lsp.Ensures[0].Wrapper]
+	if wfd == nil {
+		reject("use_lemma %s: wrapper missing", name)
+	}
+	sig := wfd.fn.Type().(*types.Signature)
+	var vals []Term
+	var binders []string
+	var hyp []Term
+	for i := 0; i < sig.Params().Len(); i++ {
+		p := sig.Params().At(i)
+		s := fv.mustSort(p.Type(), "lemma parameter")
+		if s.Kind != KInt && s.Kind != KBool {
+			reject("use_lemma %s: parameter %s is neither an integer nor a boolean", name, p.Name())
+		}
+		v := Term{fmt.Sprintf("l!%s!%s", name, p.Name()), s}
+		binders = append(binders, fmt.Sprintf("(%s %s)", v.S, s.Name))
+		vals = append(vals, v)
+		if s.Kind == KInt && isInteger(p.Type()) {
+			hyp = append(hyp, fv.u.inRange(p.Type(), v))
+		}
+	}
+	tmp := &State{vars: map[types.Object]Term{}, heaps: st.heaps}
+	for _, c := range lsp.Requires {
+		hyp = append(hyp, fv.evalWrapper(lsp.PkgPath, c.Wrapper, vals, tmp, nil))
+	}
+	var concl []Term
+	for _, c := range lsp.Ensures {
+		concl = append(concl, fv.evalWrapper(lsp.PkgPath, c.Wrapper, vals, tmp, tmp))
+	}
+	if len(tmp.pc) > 0 {
+		reject("use_lemma %s: clauses with side conditions", name)
+	}
+	st.assume(mk(sortBool, "(forall (%s) %s)", strings.Join(binders, " "), implies(and(hyp...), and(concl...)).S))
+	fv.u.note("lemma %s assumed for all parameter values (proved separately: obligation %s#lemma:*)", name, shortName(lsp.Key))
+	fv.contractUsed[lsp.Key] = true
 }
 
 func (fv *FuncVerifier) setupAllocBudget() {
